@@ -158,8 +158,15 @@ func init() {
 		g, fs := c.fixGraph(key)
 		runSEPLEN(c, r, "SEPLEN", fixFuncs(c, g, fs))
 		runMAPEQ(c, r, "MAPEQ", fixFuncs(c, g, fs))
+		runNUMKINDS(c, r, "NUMKINDS", fixFuncs(c, g, fs))
+		runPERITEM(c, r, "PERITEM", fixFuncs(c, g, fs))
+		for _, f := range fixFuncs(c, g, fs) {
+			if f.Name() == "Render" {
+				runARGUSE(c, r, "ARGUSE", f)
+			}
+		}
 	}
-	registerFixture(fixtureCheck{Group: "shape", Pkg: "shape/bad", Run: shape, Want: []string{"shape/bad.Join:separator-by-length#1", "shape/bad.JoinConcat:separator-by-length#1", "shape/bad.SameMap:map-equality#1:size", "shape/bad.SameMapLen:map-equality#1:presence"}})
+	registerFixture(fixtureCheck{Group: "shape", Pkg: "shape/bad", Run: shape, Want: []string{"shape/bad.Join:separator-by-length#1", "shape/bad.JoinConcat:separator-by-length#1", "shape/bad.SameMap:map-equality#1:size", "shape/bad.SameMapLen:map-equality#1:presence", "shape/bad.AsFloat:int,float64", "shape/bad.Terms:term.desc#1", "shape/bad.Render:param#2"}})
 	registerFixture(fixtureCheck{Group: "shape", Pkg: "shape/good", Run: shape})
 	kind := func(c *Ctx, r *Result, key string) {
 		g, fs := c.fixGraph(key)
